@@ -35,12 +35,54 @@ type State struct {
 	Alive  []bool
 	lay    *Layout
 	slot   map[H]int
+	// Sparse states (engine "tall"): the slots [0, Base) are covered by opaque
+	// complete subtrees — one per binary digit of Base, biggest first — of which
+	// only the hash is known (all-zero: no survivors).  Leaves[i] is slot Base+i.
+	// N counts the opaque slots too.  Base == 0 is the ordinary dense state.
+	Base   uint64
+	Opaque []OpaqueUnit
+}
+
+// OpaqueUnit is a complete subtree over the slots [Lo, Lo+2^Ht) that the model
+// knows only by its hash.
+type OpaqueUnit struct {
+	Lo   uint64
+	Ht   uint8
+	Hash H
+}
+
+// NewSparseState: an accumulator of `base` leaves whose trees are opaque.
+func NewSparseState(base uint64, hashes []H) *State {
+	s := &State{N: base, Base: base}
+	for i, t := range treesOf(base) {
+		s.Opaque = append(s.Opaque, OpaqueUnit{t.lo, t.h, hashes[i]})
+	}
+	return s
+}
+
+func (s *State) unitAt(lo uint64) *OpaqueUnit {
+	for i := range s.Opaque {
+		u := &s.Opaque[i]
+		if lo >= u.Lo && lo-u.Lo < uint64(1)<<u.Ht {
+			return u
+		}
+	}
+	return nil
+}
+
+// isUnit: do the slots [lo, lo+2^h) coincide with one opaque subtree?
+func (s *State) isUnit(lo uint64, h uint8) bool {
+	if s.Base == 0 || lo >= s.Base {
+		return false
+	}
+	u := s.unitAt(lo)
+	return u != nil && u.Lo == lo && u.Ht == h
 }
 
 func NewState() *State { return &State{} }
 
 func (s *State) clone() *State {
-	c := &State{N: s.N}
+	c := &State{N: s.N, Base: s.Base, Opaque: s.Opaque}
 	c.Leaves = append(make([]H, 0, len(s.Leaves)+8), s.Leaves...)
 	c.Alive = append(make([]bool, 0, len(s.Alive)+8), s.Alive...)
 	return c
@@ -193,6 +235,14 @@ type Layout struct {
 	isRoot  map[RO]bool
 	levels  [][]H
 	oks     [][]bool
+	Opaque  map[RO]bool // places of opaque subtrees (sparse states)
+	sp      *State      // set for sparse states: sub() recurses instead of reading levels
+	memo    map[mtree]subEntry
+}
+
+type subEntry struct {
+	h  H
+	ok bool
 }
 
 func (s *State) Layout() *Layout {
@@ -200,11 +250,15 @@ func (s *State) Layout() *Layout {
 		return s.lay
 	}
 	L := &Layout{N: s.N, R: rowsFor(s.N), Nodes: map[RO]H{}, IsLeaf: map[RO]bool{},
-		LeafAt: map[H]RO{}, Log: map[RO]mtree{}, isRoot: map[RO]bool{}}
+		LeafAt: map[H]RO{}, Log: map[RO]mtree{}, isRoot: map[RO]bool{}, Opaque: map[RO]bool{}}
+	if s.Base != 0 {
+		L.sp = s
+		L.memo = map[mtree]subEntry{}
+	}
 	// pass 1: logical subtree hashes, bottom-up, dense per level
 	L.levels = append(L.levels, s.Leaves)
 	L.oks = append(L.oks, s.Alive)
-	for h := 1; (s.N >> uint(h)) > 0; h++ {
+	for h := 1; L.sp == nil && (s.N>>uint(h)) > 0; h++ {
 		n := int(s.N >> uint(h))
 		lv := make([]H, n)
 		ok := make([]bool, n)
@@ -239,6 +293,9 @@ func (s *State) Layout() *Layout {
 
 // sub: hash of the logical subtree covering slots [lo, lo+2^h).
 func (L *Layout) sub(lo uint64, h uint8) (H, bool) {
+	if L.sp != nil {
+		return L.subSparse(lo, h)
+	}
 	i := lo >> h
 	if int(h) >= len(L.levels) || i >= uint64(len(L.levels[h])) {
 		return H{}, false
@@ -249,6 +306,44 @@ func (L *Layout) sub(lo uint64, h uint8) (H, bool) {
 	return L.levels[h][i], true
 }
 
+// subSparse is sub for a sparse state: the same three rules, by recursion over
+// the slot ranges, stopping at opaque subtrees.
+func (L *Layout) subSparse(lo uint64, h uint8) (H, bool) {
+	k := mtree{lo, h}
+	if e, ok := L.memo[k]; ok {
+		return e.h, e.ok
+	}
+	s := L.sp
+	var e subEntry
+	switch {
+	case lo >= s.N:
+	case s.isUnit(lo, h):
+		e.h = s.unitAt(lo).Hash
+		e.ok = e.h != zeroH
+	case h == 0:
+		if lo < s.Base {
+			panic("model: descended into an opaque subtree")
+		}
+		if s.Alive[lo-s.Base] {
+			e.h, e.ok = s.Leaves[lo-s.Base], true
+		}
+	default:
+		half := uint64(1) << (h - 1)
+		lh, lok := L.subSparse(lo, h-1)
+		rh, rok := L.subSparse(lo+half, h-1)
+		switch {
+		case lok && rok:
+			e.h, e.ok = modelParentHash(lh, rh), true
+		case lok:
+			e.h, e.ok = lh, true
+		case rok:
+			e.h, e.ok = rh, true
+		}
+	}
+	L.memo[k] = e
+	return e.h, e.ok
+}
+
 func (L *Layout) place(lo uint64, h uint8, at RO) {
 	hash, ok := L.sub(lo, h)
 	if !ok {
@@ -256,6 +351,11 @@ func (L *Layout) place(lo uint64, h uint8, at RO) {
 	}
 	if _, seen := L.Log[at]; !seen {
 		L.Log[at] = mtree{lo, h}
+	}
+	if L.sp != nil && L.sp.isUnit(lo, h) {
+		L.Nodes[at] = hash
+		L.Opaque[at] = true
+		return
 	}
 	if h == 0 {
 		L.Nodes[at] = hash
@@ -502,7 +602,7 @@ func ExpectedUpdate(pre, mid, post *State, dels, adds []H) expUpdate {
 	_ = midL
 	expA := map[uint64]H{}
 	for i := mid.N; i < post.N; i++ {
-		a := post.Leaves[i]
+		a := post.Leaves[i-post.Base]
 		expA[postL.LeafAt[a].Pos(postL.R)] = a
 	}
 	for ro := range postL.Nodes {
